@@ -3,6 +3,8 @@ package checks
 import (
 	"math/rand"
 
+	"golang.org/x/tools/go/ssa"
+
 	vexec "vp/exec"
 	"vp/run"
 	"vp/sym"
@@ -14,34 +16,40 @@ func genObserver(x *vexec.Exec, w *run.World) {
 	genNoisy := w.Func("movegen", "GenNoisy")
 	genQuiet := w.Func("movegen", "GenNotNoisy")
 	storeT := w.Pkgs[run.ModPath+"/move"].Type("Store").Type()
-	x.Stub(run.ModPath+"/movegen.vpGenCount", func(x *vexec.Exec, args []vexec.Val, g *sym.Term) vexec.Val {
-		c := x.C
-		t := args[1].(*sym.Term)
-		type site struct{ g, m *sym.Term }
-		var sites []site
-		x.Stub(allocName, func(x *vexec.Exec, a []vexec.Val, g *sym.Term) vexec.Val {
-			sites = append(sites, site{g, a[1].(*sym.Term)})
-			return &vexec.PtrV{}
-		})
-		ms := x.NewObject("observed-store", storeT, x.Zero(storeT))
-		x.Call(genNoisy, []vexec.Val{ms, args[0]}, nil, g)
-		x.Call(genQuiet, []vexec.Val{ms, args[0]}, nil, g)
-		delete(x.Intrinsics, allocName)
-		var hits []*sym.Term
-		for _, s := range sites {
-			h := c.And(s.g, c.Eq(s.m, t))
-			if h.IsConst() && h.C == 0 {
-				continue
+	mkCount := func(halves ...*ssa.Function) func(x *vexec.Exec, args []vexec.Val, g *sym.Term) vexec.Val {
+		return func(x *vexec.Exec, args []vexec.Val, g *sym.Term) vexec.Val {
+			c := x.C
+			t := args[1].(*sym.Term)
+			type site struct{ g, m *sym.Term }
+			var sites []site
+			x.Stub(allocName, func(x *vexec.Exec, a []vexec.Val, g *sym.Term) vexec.Val {
+				sites = append(sites, site{g, a[1].(*sym.Term)})
+				return &vexec.PtrV{}
+			})
+			ms := x.NewObject("observed-store", storeT, x.Zero(storeT))
+			for _, h := range halves {
+				x.Call(h, []vexec.Val{ms, args[0]}, nil, g)
 			}
-			hits = append(hits, c.ZExt(h, 64))
+			delete(x.Intrinsics, allocName)
+			var hits []*sym.Term
+			for _, s := range sites {
+				h := c.And(s.g, c.Eq(s.m, t))
+				if h.IsConst() && h.C == 0 {
+					continue
+				}
+				hits = append(hits, c.ZExt(h, 64))
+			}
+			x.Note("emission sites observed", len(sites))
+			x.Note("emission sites that can equal the target", len(hits))
+			if len(hits) == 0 {
+				return c.Const(64, 0)
+			}
+			return c.Add(hits...)
 		}
-		x.Note("emission sites observed", len(sites))
-		x.Note("emission sites that can equal the target", len(hits))
-		if len(hits) == 0 {
-			return c.Const(64, 0)
-		}
-		return c.Add(hits...)
-	})
+	}
+	x.Stub(run.ModPath+"/movegen.vpGenCount", mkCount(genNoisy, genQuiet))
+	x.Stub(run.ModPath+"/movegen.vpGenCountNoisy", mkCount(genNoisy))
+	x.Stub(run.ModPath+"/movegen.vpGenCountQuiet", mkCount(genQuiet))
 }
 
 func init() {
